@@ -152,18 +152,27 @@ class AnalysisPool:
         """
         count_ = 0
         results = []
+        exception = None
 
         while count_ < self.n_analyses:
             for process in self.processes:
                 if process.queue.empty():
                     continue
                 result = process.queue.get()
-                results.append(result)
+                count_ += 1
 
                 if isinstance(result, Exception):
-                    raise result
+                    # Every analysis puts exactly one result or exception on its queue
+                    # per instance. Keep collecting so nothing is left behind to be
+                    # mistaken for a result of the next instance.
+                    if exception is None:
+                        exception = result
+                    continue
 
-                count_ += 1
+                results.append(result)
+
+        if exception is not None:
+            raise exception
 
         return results
 
